@@ -31,6 +31,7 @@ class Runtime:
         self.plan = plan
         self.calls = []  # (path, coord, parent, args, ctx_ok)
         self.seen_vars = []  # info.variable_values as seen by each resolver call
+        self.seen_roots = []  # (path, info.root_value) as seen by each resolver call
         self.started = {}
         self.finished = {}
         self.suspend = suspend
@@ -45,6 +46,7 @@ class Runtime:
         self.scramble_args = False
         self.event_plans = []  # subscriptions: [(payload, plan)] in source order
         self.event_calls = []
+        self.event_roots = []
         self.source_args = []
 
 
@@ -117,6 +119,7 @@ def make_resolver(coord, bundle=None):
         if isinstance(args, dict) and rt.scramble_args:
             _scramble(args)  # the argument dictionary belongs to this call: a resolver may consume it
         rt.seen_vars.append(info.variable_values)
+        rt.seen_roots.append((path, info.root_value))
         if rt.suspend:
             await loop.point((rt.rid,) + path)
         loop.ev("finish", rt.rid, path)
@@ -225,6 +228,8 @@ def make_source(coord):
             rt.plan = plan
             rt.calls = []
             rt.event_calls.append(rt.calls)
+            rt.seen_roots = []
+            rt.event_roots.append(rt.seen_roots)
             loop.ev("event", rt.rid, k)
             yield payload
         await loop.point((rt.rid, "source", "end"))
